@@ -221,3 +221,75 @@ func VerifC19_TwoItems() {
 	}
 	vf.Reach("end")
 }
+
+// Would-block in the middle of an item, blocking API on a non-blocking stream. Write direction: the
+// transport accepts some bytes of item 1 (none, or one partial write) and then reports would-block;
+// WriteNext reports it, and after the next successful WriteNext the wire holds item 1 and item 2
+// exactly once each, in order, and nothing stays queued. Read direction: a read reports would-block
+// before or inside item 1 (prefix included); ReadNext reports it, and the next ReadNext returns the
+// item intact.
+func VerifC19_WouldBlock() {
+	maxLen := vf.Bound("wouldblock.maxlen", 64, MaxPayloadLength)
+	m1, m2 := vf.Len("m1"), vf.Len("m2")
+	vf.Assume(vf.All(0 <= m1, m1 <= maxLen, 0 <= m2, m2 <= maxLen))
+	if vf.Bool("read") {
+		wire := vf.Bytes("wire", HeaderLen+m1)
+		vf.Assume(vf.All(wire[0] == byte(m1>>24), wire[1] == byte(m1>>16), wire[2] == byte(m1>>8), wire[3] == byte(m1)))
+		src, dst := sonic.NewByteBuffer(), sonic.NewByteBuffer()
+		t := &sonic.VerifTransport{In: wire, Total: len(wire), MaxSegs: 3, RBlockAt: 1 + vf.Choice("rblock", 3)}
+		conn, _ := sonic.NewCodecConn[[]byte, []byte](t, NewCodec(src), src, dst)
+		vf.Unwind(8)
+		got, err := conn.ReadNext()
+		if err == nil {
+			// the item was complete before the blocked read was reached
+			vf.Reach("opt:read-complete-before-block")
+		} else {
+			vf.Reach("read-blocked")
+			vf.Assert("read-reports-would-block", vf.All(err == sonicerrors.ErrWouldBlock, len(got) == 0))
+			got, err = conn.ReadNext()
+		}
+		vf.Assert("read-resumes-with-the-whole-item", vf.All(err == nil, len(got) == m1))
+		if m1 > 0 {
+			j := vf.Int("j")
+			vf.Assume(vf.All(0 <= j, j < m1))
+			vf.Assert("read-bytes", got[j] == wire[HeaderLen+j])
+		}
+		vf.Reach("end")
+		return
+	}
+	a, b := vf.Bytes("a", m1), vf.Bytes("b", m2)
+	src, dst := sonic.NewByteBuffer(), sonic.NewByteBuffer()
+	t := &sonic.VerifTransport{MaxWSegs: 3, WBlockAt: 1 + vf.Choice("wblock", 2)}
+	conn, _ := sonic.NewCodecConn[[]byte, []byte](t, NewCodec(src), src, dst)
+	vf.Unwind(8)
+	n, err := conn.WriteNext(a)
+	if err == nil {
+		vf.Reach("opt:write-complete-before-block")
+		vf.Assert("write-sent-whole-item", vf.All(n == HeaderLen+m1, len(t.Out) == HeaderLen+m1))
+	} else {
+		vf.Reach("write-blocked")
+		vf.Assert("write-reports-would-block-and-count", vf.All(err == sonicerrors.ErrWouldBlock, n == len(t.Out), n < HeaderLen+m1))
+		if n > 0 {
+			vf.Reach("blocked-mid-item")
+		}
+	}
+	t.WBlockAt, t.WSegs = 0, 0
+	_, err = conn.WriteNext(b)
+	vf.Assert("second-write-ok", err == nil)
+	vf.Assert("wire-holds-both-items-once", len(t.Out) == 2*HeaderLen+m1+m2)
+	vf.Assert("nothing-left-behind", vf.All(dst.ReadLen() == 0, dst.WriteLen() == 0))
+	o := HeaderLen + m1
+	vf.Assert("wire-prefix-1", vf.All(t.Out[0] == byte(m1>>24), t.Out[1] == byte(m1>>16), t.Out[2] == byte(m1>>8), t.Out[3] == byte(m1)))
+	vf.Assert("wire-prefix-2", vf.All(t.Out[o] == byte(m2>>24), t.Out[o+1] == byte(m2>>16), t.Out[o+2] == byte(m2>>8), t.Out[o+3] == byte(m2)))
+	if m1 > 0 {
+		j := vf.Int("j")
+		vf.Assume(vf.All(0 <= j, j < m1))
+		vf.Assert("wire-payload-1", t.Out[HeaderLen+j] == a[j])
+	}
+	if m2 > 0 {
+		j := vf.Int("j2")
+		vf.Assume(vf.All(0 <= j, j < m2))
+		vf.Assert("wire-payload-2", t.Out[o+HeaderLen+j] == b[j])
+	}
+	vf.Reach("end")
+}
